@@ -48,8 +48,12 @@ func (self *Transformer) infixExpr(node ast.AnalyzedInfixExpression, needsToBeSt
 			variants = append(variants, node)
 		}
 	case pAst.MultiplyInfixOperator:
-		// Swap the operands
-		if node.Lhs.Type().Kind() == ast.IntTypeKind || node.Lhs.Type().Kind() == ast.FloatTypeKind {
+		// Swap the operands.
+		// An integer product may be unrolled over its RIGHT operand by this or a later pass, which is only
+		// right for a small, non-negative count: a left operand may only move there if it is such a literal.
+		lhsLiteral, lhsIsIntLiteral := node.Lhs.(ast.AnalyzedIntLiteralExpression)
+		lhsMayBecomeCount := lhsIsIntLiteral && lhsLiteral.Value >= 0 && lhsLiteral.Value <= 1000
+		if (node.Lhs.Type().Kind() == ast.IntTypeKind && lhsMayBecomeCount) || node.Lhs.Type().Kind() == ast.FloatTypeKind {
 			variants = append(variants, ast.AnalyzedInfixExpression{
 				Lhs:        node.Rhs,
 				Rhs:        node.Lhs,
